@@ -25,6 +25,21 @@ for p in sorted(glob.glob(os.path.join(V, "notes", "findings", "*.json"))):
         else:
             index[k] = len(kf["findings"])
             kf["findings"].append(f)
+# an entry a property's findings file no longer lists was withdrawn there (e.g. a false alarm): drop it here too
+have_file = {os.path.basename(p)[:-5] for p in glob.glob(os.path.join(V, "notes", "findings", "*.json"))}
+listed = set()
+for p in glob.glob(os.path.join(V, "notes", "findings", "*.json")):
+    try:
+        items = json.load(open(p))
+    except Exception:
+        continue
+    if isinstance(items, dict):
+        items = items.get("findings", [items])
+    listed |= {(f["property"], f["key"]) for f in items}
+before = len(kf["findings"])
+kf["findings"] = [f for f in kf["findings"] if f["property"] not in have_file or (f["property"], f["key"]) in listed]
+if len(kf["findings"]) != before:
+    print("dropped %d withdrawn finding(s)" % (before - len(kf["findings"])))
 json.dump(kf, open(os.path.join(V, "known_findings.json"), "w"), indent=1)
 subprocess.run([sys.executable, os.path.join(V, "mkmanifest.py")], check=True)
 chk = r'''
